@@ -124,7 +124,7 @@ func head(path string, n int) string {
 }
 
 var rxFatal = regexp.MustCompile(`(?m)^(fatal error: .*|runtime: goroutine stack exceeds.*|panic: .*)$`)
-var rxGoFrame = regexp.MustCompile(`(?m)^(github\.com/go-openapi/analysis[^\s(]*)\(`)
+var rxGoFrame = regexp.MustCompile(`(?m)^(github\.com/go-openapi/analysis\S*)\(`)
 
 // crashSig extracts the kind of fatal error and the innermost in-module frame from a goroutine dump.
 func crashSig(stderr string) (msg, site string) {
